@@ -116,7 +116,7 @@ HAND = {
 NO_OUT = {"LinearElasticLargeStrain(E,nu)", "Laplace(multiplier)"}
 
 
-@contract("C03", "handcoded", configs=[dict(model=k) for k in HAND])
+@contract("C03", "handcoded", configs=[dict(model=k) for k in HAND] + [dict(model=k, layout="F") for k in ("NeoHooke(mu,bulk)", "NeoHookeCompressible(mu,lmbda)")])  # layout=F: column-major deformation gradient
 def handcoded(vk, cfg):
     umat = HAND[cfg["model"]](vk)
     cls = type(umat)
